@@ -289,7 +289,21 @@ func nameNear(r *RNG, p string) string {
 	case 10:
 		return strings.TrimPrefix(cl, "/") // relative spelling
 	default:
-		return randPath(r)
+		switch r.Intn(3) {
+		case 0: // any ancestor, not only the direct parent
+			ch := chainOf(cl)
+			return ch[r.Intn(len(ch))]
+		case 1: // a shallower name that merely shares a string prefix
+			if rs := []rune(cl); len(rs) > 2 {
+				t := strings.TrimSuffix(string(rs[:1+r.Intn(len(rs)-1)]), "/")
+				if t != "" {
+					return t
+				}
+			}
+			return cl
+		default:
+			return randPath(r)
+		}
 	}
 }
 
